@@ -106,8 +106,23 @@ FirstDiff(a, b) ==
   ELSE n + 1
 At(a, i) == IF i <= Len(a) THEN ToString(a[i]) ELSE "nothing"
 
+\* (3) the real processing thread against the stepper on a time-insensitive configuration: the same OS events in the
+\* same order (lane B holds everything the thread wrote; timing is not compared)
+RECURSIVE FlatOut(_, _)
+FlatOut(lane, i) ==
+  IF i > Len(lane) THEN <<>>
+  ELSE (IF lane[i].e = "t" \/ IsInputRec(lane[i]) THEN lane[i].out ELSE <<>>) \o FlatOut(lane, i + 1)
+LoopErr(r) ==
+  LET a == Eff(FlatOut(r.A, 1), {}).eff
+      b == Eff(FlatOut(r.B, 1), {}).eff
+  IN IF a = b THEN ""
+     ELSE LET i == FirstDiff(a, b) IN
+          "C07 loop-diverges: OS event #" \o ToString(i) \o " is " \o At(a, i) \o " from the stepper and " \o At(b, i)
+          \o " from the processing thread (" \o ToString(Len(a)) \o " / " \o ToString(Len(b)) \o " events)"
+
 \* "" = the pair satisfies the property; otherwise the rule that is broken
 PairErr(r) ==
+  IF r.mode = "loop" THEN LoopErr(r) ELSE
   LET down == SeqToSet(r.down)
       ca == Canon(r.A, down, TRUE)
       cb == Canon(r.B, down, TRUE)
